@@ -141,3 +141,12 @@ def rel_err(a, b, floor=0.0):
         return np.inf
     scale = max(float(np.max(np.abs(b))) if b.size else 0.0, floor, 1e-300)
     return float(np.max(np.abs(a - b)) / scale) if a.size else 0.0
+
+
+# ---------------------------------------------------------------- no-progress watchdog
+# A property module whose harness observes every loop event (C06) may report a *stall*: no
+# event at all for STALL_S seconds, although every legitimate run produces an event within
+# milliseconds.  The worker installs the hook; it records a violation for the current case,
+# writes the shard statistics and exits the process (an XLA while-loop cannot be interrupted).
+STALL_HOOK = [None]
+STALL_S = float(os.environ.get("VERIF_STALL_S", "240"))
